@@ -93,9 +93,9 @@ var VerifPointNames = map[int]string{
 	vpOpenCas:      "OPEN_CAS",
 	vpCloseDec:     "CLOSE_DEC",
 	vpCloseRetire:  "CLOSE_RETIRE",
-	vpCloseGC:      "CLOSE_G_C",
-	vpGCTryLock:    "G_C_TRY_LOCK",
-	vpGCUnlock:     "G_C_UNLOCK",
+	vpCloseGC:      "CLOSE_GC",
+	vpGCTryLock:    "GC_TRY_LOCK",
+	vpGCUnlock:     "GC_UNLOCK",
 	vpCollectRead:  "COLLECT_READ",
 	vpCollectSend:  "COLLECT_SEND",
 	vpDelNodePhys:  "DEL_NODE_PHYS",
